@@ -272,6 +272,17 @@ def extra_phases(ctx, tier, seed):
         summaries.append(summ)
         viol += v
         evaluations += summ["executions"]
+        # coverage-guided workload: libFuzzer + ASan over every parser, seeded with the generators' corpus
+        seeds = []
+        for _ in range(150):
+            seeds += [(0, mutgen.seed_phrase(rng).encode()), (0, mutgen.hostile_phrase(rng).encode()[:400]), (1, mutgen.seed_path(rng).encode()),
+                      (1, mutgen.hostile_path(rng).encode()[:200]), (2, mutgen.seed_sig(rng).encode()), (2, mutgen.hostile_sig(rng).encode()[:200]),
+                      (3, mutgen.seed_tx(rng).encode()), (4, mutgen.hostile_tx(rng).encode()[:3000]), (5, mutgen.seed_td(rng).encode()[:6000]),
+                      (6, mutgen.hostile_td(rng).encode()[:6000]), (7, rand_bytes(rng, 32))]
+        summ, v = sanitize.fuzz_parsers(seeds, ctx.run_dir, 300)
+        summaries.append(summ)
+        viol += v
+        evaluations += summ["executions"]
         for name, pairs in obs.items():
             for req, o in pairs:
                 if "panic" in o:
